@@ -91,6 +91,8 @@ struct prch_ctx_s {
 	uint32_t tot_cno;
 	/* number of bytes in the buffer */
 	size_t bno;
+	/* size of the buffer */
+	size_t bsz;
 	/* last known offset */
 	size_t off;
 	/* offsets */
@@ -186,6 +188,27 @@ prchunk_fill(prch_ctx_t ctx)
 	}
 
 yield1:
+	if (UNLIKELY((size_t)(bno - ctx->buf) + CHUNK_SIZE > ctx->bsz)) {
+		/* window is full */
+		char *nub;
+
+		if (ctx->tot_lno > 0U) {
+			/* hand out the lines so far, the rest is carried over */
+			YIELD(3);
+		}
+		/* one line bigger than the whole window, get a bigger window */
+		nub = mmap(NULL, 2U * ctx->bsz, PROT_READ | PROT_WRITE,
+			   MAP_ANON | MAP_PRIVATE, -1, 0);
+		if (UNLIKELY(nub == MAP_FAILED)) {
+			return -1;
+		}
+		memcpy(nub, ctx->buf, bno - ctx->buf);
+		munmap(ctx->buf, ctx->bsz);
+		off = nub + (off - ctx->buf);
+		bno = nub + (bno - ctx->buf);
+		ctx->buf = nub;
+		ctx->bsz *= 2U;
+	}
 	/* read CHUNK_SIZE bytes */
 	bno += (nrd = read(ctx->fd, bno, CHUNK_SIZE));
 	/* if we came from yield2 then off == __ctx->bno, and if we
@@ -270,6 +293,7 @@ init_prchunk(int fd)
 	if (__ctx.buf == MAP_FAILED) {
 		return NULL;
 	}
+	__ctx.bsz = MAP_LEN;
 
 	/* bit of space for the rechunker */
 	__ctx.soff = mmap(NULL, MAP_LEN, PROT_MEM, MAP_MEM, -1, 0);
@@ -295,7 +319,7 @@ FDEFU void
 free_prchunk(prch_ctx_t ctx)
 {
 	if (LIKELY(ctx->buf != NULL)) {
-		munmap(ctx->buf, MAP_LEN);
+		munmap(ctx->buf, ctx->bsz);
 		ctx->buf = NULL;
 	}
 	return;
